@@ -18,6 +18,7 @@ def parseOp (ws : List String) : Option Op :=
   | "set" :: l => some (.set (l.filterMap String.toNat? |>.filter sigs.contains))
   | ["drop"] => some .dropSrc
   | ["raise", s] => s.toNat?.map .raise
+  | ["raiset", s] => s.toNat?.map .raiseT
   | ["dispatch"] => some .dispatch
   | _ => none
 
